@@ -6,6 +6,7 @@ import (
 	"bufio"
 	"bytes"
 	"context"
+	"crypto/sha1"
 	"crypto/sha256"
 	"encoding/json"
 	"fmt"
@@ -19,6 +20,7 @@ import (
 	"strings"
 	"sync"
 	"time"
+	"unsafe"
 
 	"github.com/NethermindEth/juno/consensus/propeller"
 	"github.com/NethermindEth/juno/consensus/propeller/reedsolomon"
@@ -93,6 +95,7 @@ type procEvidence struct {
 	RunPanicNilDeref     bool   `json:"run_panic_nil_deref"`    // … and it is a nil dereference
 	NilChanSendBroadcast bool   `json:"nil_chan_send_broadcast"` // a goroutine is blocked in broadcastUnit on "chan send (nil chan)"
 	BlockedSendToRun     bool   `json:"blocked_send_to_run"`    // a subprocessor is blocked sending to the (dead) Run loop
+	HonestKeyFinalized   bool   `json:"honest_key_finalized"`   // the publisher's message key is in Processor.finalized (reflection)
 	Dump                 string `json:"dump,omitempty"`
 }
 
@@ -334,9 +337,6 @@ func procChild(path string) {
 	for i, st := range sc.Steps {
 		u, sender := w.stepUnit(st)
 		res := hand(u, sender)
-		if sc.Once {
-			time.Sleep(3 * time.Millisecond) // let the subprocessor work; nothing is retried
-		}
 		// events drained while handing step i over belong to the steps before it
 		if prev != -2 {
 			emit(procLine{Step: prev, Res: "events-of-previous", Events: pending, Note: note()})
@@ -344,6 +344,9 @@ func procChild(path string) {
 		pending = nil
 		emit(procLine{Step: i, Res: res})
 		prev = i
+		if sc.Once {
+			time.Sleep(3 * time.Millisecond) // let the subprocessor work; nothing is retried
+		}
 		if res == "stuck" {
 			emit(procLine{Step: -1, Res: "stuck", Note: note(), Ev: stuckEvidence()})
 			os.Exit(0)
@@ -367,9 +370,28 @@ func procChild(path string) {
 	if res == "stuck" {
 		emit(procLine{Step: -1, Res: res, Note: note(), Ev: stuckEvidence()})
 	} else {
+		ev.HonestKeyFinalized = keyFinalized(p, &w.units[0])
 		emit(procLine{Step: -1, Res: res, Note: note(), Ev: ev})
 	}
 	os.Exit(0)
+}
+
+// keyFinalized: is extractKey(u) in p.finalized? (reflection over unexported fields; read-only)
+func keyFinalized(p *propeller.Processor, u *propeller.Unit) (found bool) {
+	defer func() {
+		if recover() != nil {
+			found = false
+		}
+	}()
+	f := reflect.ValueOf(p).Elem().FieldByName("finalized")
+	f = reflect.NewAt(f.Type(), unsafe.Pointer(f.UnsafeAddr())).Elem()
+	m := f.MethodByName("Get")
+	key := reflect.New(m.Type().In(0).Elem())
+	key.Elem().FieldByName("CommitteeID").Set(reflect.ValueOf(u.CommitteeID))
+	key.Elem().FieldByName("Publisher").Set(reflect.ValueOf(u.Publisher))
+	key.Elem().FieldByName("Root").Set(reflect.ValueOf(u.MessageRoot))
+	key.Elem().FieldByName("Nonce").Set(reflect.ValueOf(u.Nonce))
+	return m.Call([]reflect.Value{key})[0].Bool()
 }
 
 // fieldIsNil: is the named (unexported) field of *p nil? Read-only reflection.
@@ -394,19 +416,22 @@ func fieldIsNil(p any, name string) bool {
 func firstPropellerFrame(stack string) string {
 	for _, l := range strings.Split(stack, "\n") {
 		const pfx = "github.com/NethermindEth/juno/consensus/propeller."
-		if strings.HasPrefix(l, pfx) {
-			fn := strings.TrimPrefix(l, pfx)
-			if i := strings.IndexByte(fn, '('); i > 0 && strings.HasPrefix(fn, "(") {
-				// method: "(*Processor).Run(…)"
-				if j := strings.Index(fn[1:], "("); j > 0 {
-					return fn[:j+1]
+		if !strings.HasPrefix(l, pfx) {
+			continue
+		}
+		fn := strings.TrimPrefix(l, pfx)
+		if strings.HasPrefix(fn, "(") { // method: "(*Processor).Run(0x…"
+			if k := strings.Index(fn, ")."); k > 0 {
+				if m := strings.IndexByte(fn[k+2:], '('); m > 0 {
+					return fn[:k+2+m]
 				}
-			}
-			if i := strings.IndexByte(fn, '('); i > 0 {
-				return fn[:i]
 			}
 			return fn
 		}
+		if m := strings.IndexByte(fn, '('); m > 0 {
+			return fn[:m]
+		}
+		return fn
 	}
 	return ""
 }
@@ -437,6 +462,10 @@ type procRun struct {
 	timeout bool
 }
 
+// childBin: the binary that runs the scenarios (this binary, or the one built with the wiring
+// overlay).
+var childBin = os.Args[0]
+
 func runProcChild(sc *procScenario) procRun {
 	var pr procRun
 	f, err := os.CreateTemp("", "c19-proc-*.json")
@@ -451,7 +480,7 @@ func runProcChild(sc *procScenario) procRun {
 	f.Close()
 	ctx, cancel := context.WithTimeout(context.Background(), 60*time.Second)
 	defer cancel()
-	cmd := exec.CommandContext(ctx, os.Args[0], "--c19-child", f.Name())
+	cmd := exec.CommandContext(ctx, childBin, "--c19-child", f.Name())
 	var so, se bytes.Buffer
 	cmd.Stdout, cmd.Stderr = &so, &se
 	err = cmd.Run()
@@ -482,10 +511,18 @@ type stepObs struct {
 }
 
 func collect(pr procRun, n int) (obs []stepObs, final string, notes []string) {
+	obs, final, notes, _ = collectEv(pr, n)
+	return
+}
+
+func collectEv(pr procRun, n int) (obs []stepObs, final string, notes []string, ev procEvidence) {
 	obs = make([]stepObs, n)
 	for _, l := range pr.lines {
 		if l.Note != "" {
 			notes = append(notes, l.Note)
+		}
+		if l.Ev != nil {
+			ev = *l.Ev
 		}
 		if l.Step == -1 {
 			final = l.Res
@@ -557,13 +594,21 @@ func procCase0(h *hctx, sc *procScenario, pre *procRun) {
 		pr = runProcChild(sc)
 	}
 	for try := 0; try < 3 && pr.crashed && strings.Contains(pr.stderr, "concurrent map"); try++ {
-		// Processor.subProcessors is read by ProcessMessage and written by Run without a lock: the Go
-		// runtime sometimes notices. Not deterministic, so it is counted, not reported as a violation.
+		// Processor.subProcessors is read by ProcessMessage and written by Run (finalize) without a
+		// lock; the Go runtime sometimes notices and kills the process. A genuine defect, but not
+		// reproducible on demand: reported under its own (listed) sig whenever it is seen, and the
+		// scenario is run again for the rest of the evaluation.
 		h.res.Hit("proc:concurrent-map-access-detected-by-runtime")
+		h.violate("processor-subprocessors-map-concurrent-access",
+			fmt.Sprintf("fatal error: concurrent map access in the real Processor (ProcessMessage reads p.subProcessors while Run's finalize deletes from it): %s", clip(firstPanicLines(pr.stderr))), rp)
 		pr = runProcChild(sc)
 	}
-	obs, final, notes := collect(pr, len(sc.Steps))
+	obs, final, notes, ev := collectEv(pr, len(sc.Steps))
 	desc := fmt.Sprintf("n=%d local=%d publisher=%d (k=%d, p=%d, local shard %d), steps [%s]", sc.N, sc.Local, sc.Pub, w.k, w.c, w.localIdx, stepsString(sc.Steps))
+	if len(pr.lines) == 0 && !pr.crashed {
+		h.res.Fatalf("processor child produced no output: %s", clip(pr.stderr))
+		return
+	}
 
 	// --- what an honest observer expects -------------------------------------------------------
 	// honest(i): step i hands over the publisher's own unit from its designated sender
@@ -574,7 +619,11 @@ func procCase0(h *hctx, sc *procScenario, pre *procRun) {
 	localDirectAt := -1
 	firstBadOfKeyBeforeAnyHonest := false
 	anyHonest := false
+	keylessStep := -1
 	for i, st := range sc.Steps {
+		if st.Corrupt == "publisher-keyless" && keylessStep < 0 {
+			keylessStep = i
+		}
 		if isHonest(st) {
 			idx := st.Unit % total
 			if !seenIdx[idx] {
@@ -596,7 +645,7 @@ func procCase0(h *hctx, sc *procScenario, pre *procRun) {
 	}
 	honestLocal := renderUnit(&w.units[w.localIdx])
 
-	// --- oracle on the observation -------------------------------------------------------------
+	// --- oracle on the observation: every sig from EVIDENCE of what happened -------------------
 	lastSeen := -1
 	for i := range obs {
 		if obs[i].seen {
@@ -612,36 +661,44 @@ func procCase0(h *hctx, sc *procScenario, pre *procRun) {
 		if strings.HasPrefix(n, "run-panic") {
 			runPanicked = true
 			h.res.Hit("proc:run-panic")
-			h.violate("processor-run-panics-logger-not-set",
-				fmt.Sprintf("Processor.Run panics (%s) as soon as a subprocessor reports an invalid unit or finishes: %s", n, desc), rp)
+			sig := "processor-run-panics"
+			if ev.LoggerNil && ev.RunPanicInRun && ev.RunPanicNilDeref {
+				// Processor.logger is nil (read from the struct) and the nil dereference was raised in
+				// the frame of (*Processor).Run itself, whose only dereferences are the logger calls
+				sig = "processor-run-panics-logger-not-set"
+			}
+			h.violate(sig, fmt.Sprintf("Processor.Run panics (%s; logger nil: %v) as soon as a subprocessor reports an invalid unit or finishes: %s", n, ev.LoggerNil, desc), rp)
 		}
 	}
 	switch {
-	case runPanicked:
-		// everything after it (subprocessors blocked on the channels Run no longer reads) is a consequence
 	case pr.crashed && !pr.timeout:
 		h.res.Hit("proc:child-crashed")
 		cause := "processor-goroutine-panics"
-		// the nil dereference of unitsReceived[0] when the local unit is filled after the build: by the
-		// frame it happens in (a function name, not a message text), or by the facts of the scenario
-		// (the build was reached without the local shard and without shard 0)
-		if (strings.Contains(pr.stderr, "nil pointer dereference") && strings.Contains(pr.stderr, "beforeMessageBuiltStage")) ||
-			(builtAt >= 0 && (localDirectAt < 0 || localDirectAt > builtAt) && !seenBefore(sc.Steps, total, builtAt, 0, isHonest) && !h.pcfg.LocalFromPresent) {
+		switch {
+		case strings.Contains(pr.stderr, "nil pointer dereference") && firstPropellerFrame(pr.stderr) == "(*subprocessor).beforeMessageBuiltStage" && !h.pcfg.LocalFromPresent:
+			// nil dereference raised in beforeMessageBuiltStage itself: `unit := unitsReceived[0]`
 			cause = "processor-panics-filling-local-unit-when-shard0-not-received"
+		case strings.Contains(pr.stderr, "NewValidator") && strings.Contains(pr.stderr, "not embedded"):
+			// panic(err) of NewValidator: ExtractPublicKey failed for the publisher of a new message key
+			cause = "receiver-panics-on-publisher-without-embedded-key"
 		}
 		h.violate(cause, fmt.Sprintf("the process dies while the processor handles %s\n%s", desc, clip(firstPanicLines(pr.stderr))), rp)
 	case final == "stuck" || pr.timeout:
 		h.res.Hit("proc:stuck")
 		cause := "processor-stuck"
-		// stuck right after the first unit that makes the subprocessor broadcast
-		firstBcast := localDirectAt
-		if firstBcast < 0 || (builtAt >= 0 && builtAt < firstBcast) {
-			firstBcast = builtAt
-		}
-		if firstBcast >= 0 && lastSeen == firstBcast+1 && len(bcasts) == 0 {
+		switch {
+		case ev.NilChanSendBroadcast && len(bcasts) == 0:
+			// a goroutine sits in broadcastUnit on "chan send (nil chan)" and no event was ever received
 			cause = "processor-blocks-forever-on-first-broadcast-events-channel-not-set"
+		case runPanicked && ev.BlockedSendToRun:
+			// the subprocessor waits for the Run loop that has just died: same cause as the run panic
+			cause = ""
 		}
-		h.violate(cause, fmt.Sprintf("ProcessMessage keeps answering 'processor channel full' after step %d: %s", lastSeen-1, desc), rp)
+		if cause != "" {
+			h.violate(cause, fmt.Sprintf("ProcessMessage keeps answering 'processor channel full' after step %d: %s", lastSeen-1, desc), rp)
+		}
+	case sc.Once:
+		// evaluated by the caller (delivery statistics)
 	default:
 		h.res.Hit("proc:completed")
 		// every broadcast is the publisher's unit for the local index, and there is at most one
@@ -654,22 +711,23 @@ func procCase0(h *hctx, sc *procScenario, pre *procRun) {
 			}
 		}
 		if len(bcasts) > 1 {
-			// Processor.finalize deletes the subprocessor before it adds the key to the finalized cache,
-			// without a lock: a unit arriving in between starts a second subprocessor for a finished
-			// message. Real, but a race: counted, not reported (the check must be deterministic).
-			// (decided in procModel, which knows whether a subprocessor had ended before)
+			// decided in procModel, which knows whether a subprocessor had ended before
 			h.res.Hit("proc:more-than-one-broadcast")
 		}
-		if builtAt >= 0 && len(bcasts) == 0 {
+		if builtAt >= 0 && len(bcasts) == 0 && !runPanicked {
 			sig := "processor-never-broadcasts-local-unit-although-threshold-reached"
-			if firstBadOfKeyBeforeAnyHonest {
+			if firstBadOfKeyBeforeAnyHonest && ev.HonestKeyFinalized {
+				// the first unit of the key was forged AND the key now sits in the finalized cache
 				sig = "processor-drops-message-after-invalid-first-unit"
 			}
-			h.violate(sig, fmt.Sprintf("%d distinct honest units were handed over (threshold %d) but the local unit was never broadcast: %s", distinct, w.k, desc), rp)
+			h.violate(sig, fmt.Sprintf("%d distinct honest units were handed over (threshold %d) but the local unit was never broadcast (key finalized: %v): %s", distinct, w.k, ev.HonestKeyFinalized, desc), rp)
 		}
 		if builtAt < 0 && len(bcasts) > 0 && localDirectAt < 0 {
 			h.violate("processor-builds-below-threshold", desc, rp)
 		}
+	}
+	if keylessStep >= 0 {
+		h.res.Hit("proc:keyless-publisher")
 	}
 	if firstBadOfKeyBeforeAnyHonest {
 		h.res.Hit("proc:bad-first-unit")
@@ -682,7 +740,7 @@ func procCase0(h *hctx, sc *procScenario, pre *procRun) {
 	}
 
 	// --- correspondence with the model ---------------------------------------------------------
-	if !h.pcfg.ProcWired || h.driverBroken {
+	if !h.pcfg.ProcWired || h.driverBroken || sc.Once || (h.pcfg.Overlay && childBin == os.Args[0]) {
 		return
 	}
 	procModel(h, sc, w, obs, pr, rp)
@@ -737,16 +795,19 @@ func procModel(h *hctx, sc *procScenario, w *procWorld, obs []stepObs, pr procRu
 	endStep := len(sc.Steps)
 	for i, st := range sc.Steps {
 		u, sender := w.stepUnit(st)
-		sigok := false
-		if pk, err := u.Publisher.ExtractPublicKey(); err == nil && len(u.Signature) > 0 {
-			good, e := pk.Verify(signPayload(hash(u.MessageRoot), u.CommitteeID, uint64(u.Nonce)), u.Signature)
-			sigok = good && e == nil
+		sigok, hasKey := false, false
+		if pk, err := u.Publisher.ExtractPublicKey(); err == nil {
+			hasKey = true
+			if len(u.Signature) > 0 {
+				good, e := pk.Verify(signPayload(hash(u.MessageRoot), u.CommitteeID, uint64(u.Nonce)), u.Signature)
+				sigok = good && e == nil
+			}
 		}
 		shards := make([][]byte, len(u.ShardData))
 		for j, x := range u.ShardData {
 			shards[j] = x
 		}
-		ans := h.ask(fmt.Sprintf("pstep %s %s %s %s %s %s %d %s %d %s", b01(sigok), hx(u.CommitteeID[:]), hx([]byte(u.Publisher)),
+		ans := h.ask(fmt.Sprintf("pstep %s %s %s %s %s %s %d %s %d %s", b01(sigok)+b01(hasKey), hx(u.CommitteeID[:]), hx([]byte(u.Publisher)),
 			h.tt.termOf(hash(u.MessageRoot)), h.tt.termList(toHashes(u.MerkleProof.Siblings)), hx(u.Signature),
 			uint32(u.ShardIndex), hexList(shards), uint64(u.Nonce), hx([]byte(sender))))
 		if strings.HasPrefix(ans, "need-rs ") {
@@ -770,7 +831,8 @@ func procModel(h *hctx, sc *procScenario, w *procWorld, obs []stepObs, pr procRu
 			}
 			ans = h.ask("prs " + rs)
 		}
-		if ans == "" {
+		if ans == "" || ans == "bad-op" {
+			h.res.Fatalf("driver answered %q to a processor step", ans)
 			return
 		}
 		// implementation side of step i: what ProcessMessage answered (events are compared at the
@@ -830,8 +892,8 @@ func procModel(h *hctx, sc *procScenario, w *procWorld, obs []stepObs, pr procRu
 	}
 	if pr.crashed {
 		if afterEnd {
-			h.res.Hit("proc:divergence-after-finalization-race")
-			h.postFinalization = append(h.postFinalization, rp)
+			h.res.Hit("proc:divergence-after-finalization")
+			h.postFinalization = append(h.postFinalization, sc)
 		} else {
 			h.res.Compared(1)
 			h.res.Mismatch(lib.Mismatch{Sig: "processor-step", Input: map[string]any{"scenario": sc}, Model: "no panic", Impl: "child crashed: " + clip(firstPanicLines(pr.stderr))})
@@ -869,8 +931,8 @@ func procModel(h *hctx, sc *procScenario, w *procWorld, obs []stepObs, pr procRu
 		case afterEnd && extraOnlyLocal && !extraBeforeEnd:
 			// a unit of a finished message slipped through the unlocked window of Processor.finalize and
 			// started a second subprocessor (see above): tolerated when rare
-			h.res.Hit("proc:divergence-after-finalization-race")
-			h.postFinalization = append(h.postFinalization, rp)
+			h.res.Hit("proc:divergence-after-finalization")
+			h.postFinalization = append(h.postFinalization, sc)
 		case extraOnlyLocal:
 			h.violate("processor-broadcasts-local-unit-twice", fmt.Sprintf("n=%d local=%d publisher=%d steps [%s]: %d broadcasts of the local unit, the model allows %d",
 				sc.N, sc.Local, sc.Pub, stepsString(sc.Steps), len(implEvents), len(modelEvents)), rp)
@@ -921,19 +983,25 @@ func honestSteps(idx []int) []procStepT {
 
 func secProcessor(h *hctx, r *lib.RNG) {
 	if !(h.cfg.ShardingLeafProto == h.cfg.ValidatorLeafProto && h.cfg.NonceSet) {
-		h.res.Fatalf("processor section skipped: CreatePropellerUnits and UnitValidator disagree in this tree, no unit can be accepted")
+		h.res.Fatalf("processor section cannot run: CreatePropellerUnits and UnitValidator disagree in this tree, no unit can be accepted")
 		return
 	}
 	mk := func(n, local, pub int, msgLen int, steps []procStepT) *procScenario {
 		return &procScenario{N: n, Local: local, Pub: pub, Msg: hx(genMsg(lib.NewRNG(uint64(n*100+msgLen)), msgLen)),
 			Nonce: "1758700000000000000", Steps: steps, TimeoutMs: h.f.Scale(1500, 3000)}
 	}
-	if !h.pcfg.ProcWired {
-		// The Processor cannot get past its first broadcast / first invalid unit: three scenarios
-		// show the three ways it fails; nothing else can be observed.
-		procCase(h, mk(4, 0, 1, 20, honestSteps([]int{0, 1, 2})))                                                   // local shard first: blocks on the nil events channel
+	if h.pcfg.Overlay {
+		// The Processor of this tree cannot get past its first broadcast / first invalid unit (two
+		// fields are never set). Two scenarios on the UNMODIFIED binary show the two ways it fails;
+		// everything else runs on the child built with the wiring overlay.
+		plain := childBin
+		childBin = os.Args[0]
+		procCase(h, mk(4, 0, 1, 20, honestSteps([]int{0, 1, 2})))                                                               // local shard first: blocks on the nil events channel
 		procCase(h, mk(4, 0, 1, 20, []procStepT{{Unit: 1, Corrupt: "shard-flip", Sender: "legit"}, {Unit: 1, Sender: "legit"}})) // invalid unit: Run logs through a nil logger
-		procCase(h, mk(4, 1, 0, 20, honestSteps([]int{2, 1})))                                                      // builds without shard 0 and without the local shard
+		childBin = plain
+	}
+	if !h.pcfg.ProcWired {
+		h.res.Fatalf("the real Processor cannot be driven (not wired, and the wiring overlay could not be built)")
 		return
 	}
 	bad := []string{"shard-flip", "proof-flip", "sig-flip", "index-oob", "index-next", "shards-none", "committee-flip", "nonce-plus1", "root-flip", "publisher-other"}
@@ -976,25 +1044,20 @@ func secProcessor(h *hctx, r *lib.RNG) {
 			for i := range all {
 				all[i] = i
 			}
-			// 1. every unit in order, then again (duplicates after the end)
 			add(mk(n, local, pub, 33, honestSteps(append(append([]int{}, all...), all...))))
-			// 2. shuffled
 			sh := append([]int{}, all...)
 			lib.Shuffle(r, sh)
 			add(mk(n, local, pub, 5, honestSteps(sh)))
-			// 3. highest indices first (no shard 0, usually no local shard, before the build)
 			rev := make([]int, total)
 			for i := range rev {
 				rev[i] = total - 1 - i
 			}
 			add(mk(n, local, pub, 128, honestSteps(rev)))
-			// 4. one bad unit first, of every kind, then the honest ones
 			for _, b := range bad {
 				steps := append([]procStepT{{Unit: r.Intn(total), Corrupt: b, Sender: "legit"}}, honestSteps(sh)...)
 				add(mk(n, local, pub, 20, steps))
 			}
 			add(mk(n, local, pub, 20, append([]procStepT{{Unit: 0, Sender: lib.Pick(r, []string{"other", "outsider", "local"})}}, honestSteps(sh)...)))
-			// 5. random interleavings of honest units, duplicates and bad units
 			for t := 0; t < h.f.Scale(3, 12); t++ {
 				var steps []procStepT
 				for len(steps) < total+4 {
@@ -1011,17 +1074,100 @@ func secProcessor(h *hctx, r *lib.RNG) {
 			}
 		}
 	}
+	// a committee with a member whose peer id embeds no public key: a unit that NAMES it as
+	// publisher (nothing else about the unit matters) at various positions
+	for _, n := range []int{4, 5, 8} {
+		total := n - 1
+		all := make([]int, total)
+		for i := range all {
+			all[i] = i
+		}
+		for pos := 0; pos <= 2; pos++ {
+			steps := honestSteps(all)
+			forged := procStepT{Unit: pos % total, Corrupt: "publisher-keyless", Sender: lib.Pick(r, []string{"legit", "outsider"})}
+			steps = append(steps[:pos:pos], append([]procStepT{forged}, steps[pos:]...)...)
+			sc := mk(n, 0, 1, 17, steps)
+			sc.Keyless = true
+			add(sc)
+		}
+		sc := mk(n, 1, 0, 9, honestSteps(all)) // the keyless member is just present
+		sc.Keyless = true
+		add(sc)
+	}
 	runs := runProcChildren(scs)
 	for i := range scs {
 		procCaseWith(h, scs[i], &runs[i])
 	}
-	// The window between `delete(p.subProcessors)` and `p.finalized.Add` is a few instructions wide:
-	// a unit of a finished message gets through it once in many hundreds of scenarios at most. If it
-	// happens in a run again and again, units of finished messages are simply being accepted.
-	if len(h.postFinalization) >= 4 {
-		h.violate("processor-accepts-units-of-a-finished-message",
-			fmt.Sprintf("in %d of %d scenarios units handed over after their message was finished started a new subprocessor", len(h.postFinalization), len(scs)),
-			h.postFinalization[0])
+	// A divergence that shows only after a subprocessor ended can be the unlocked window of
+	// Processor.finalize (delete, then cache: a unit arriving in between starts a second subprocessor
+	// for a finished message) — a race — or a deterministic defect. Run the scenario again, twice:
+	// a race does not repeat itself three times in a row.
+	pend := h.postFinalization
+	h.postFinalization = nil
+	for _, sc := range pend {
+		repeats := 0
+		for t := 0; t < 2; t++ {
+			before := len(h.postFinalization)
+			procCase(h, sc)
+			if len(h.postFinalization) > before {
+				repeats++
+			}
+		}
+		h.postFinalization = nil
+		if repeats == 2 {
+			h.violate("processor-accepts-units-of-a-finished-message",
+				fmt.Sprintf("units handed over after their message was finished start a new subprocessor, in three runs out of three: n=%d local=%d publisher=%d steps [%s]",
+					sc.N, sc.Local, sc.Pub, stepsString(sc.Steps)), map[string]any{"kind": "processor", "scenario": sc})
+		} else {
+			h.res.Hit("proc:finalization-race-observed-not-repeatable")
+		}
+	}
+	procDeliverOnce(h, mk)
+}
+
+// procDeliverOnce: the engine hands every unit over exactly once (engine.go processUnit): how
+// many units does ProcessMessage take? The first unit of a new message key is sent on an
+// unbuffered channel, without blocking, right after the goroutine that will receive from it was
+// started — it is dropped unless that goroutine is already waiting.
+func procDeliverOnce(h *hctx, mk func(n, local, pub, msgLen int, steps []procStepT) *procScenario) {
+	var scs []*procScenario
+	for i := 0; i < 12; i++ {
+		n := []int{4, 5, 7}[i%3]
+		sc := mk(n, i%2, 1-i%2, 10+i, honestSteps([]int{i % (n - 1)}))
+		sc.Once = true
+		scs = append(scs, sc)
+	}
+	runs := runProcChildren(scs)
+	firstDropped, firstTaken := 0, 0
+	var example *procScenario
+	for i, pr := range runs {
+		obs, _, _ := collect(pr, len(scs[i].Steps))
+		h.res.Case(fmt.Sprintf("proc-once/%d", i), true)
+		if pr.crashed || len(obs) == 0 || !obs[0].seen {
+			continue // (a crash here is the nil-dereference finding, reported by the scenarios above)
+		}
+		switch obs[0].res {
+		case "full":
+			firstDropped++
+			if example == nil {
+				example = scs[i]
+			}
+		case "nil":
+			firstTaken++
+		}
+	}
+	h.res.HitN("proc-once:first-unit-of-new-key-dropped", firstDropped)
+	h.res.HitN("proc-once:first-unit-of-new-key-taken", firstTaken)
+	if firstDropped+firstTaken < 8 {
+		h.res.Fatalf("deliver-once scenarios: only %d of %d produced a first-step result", firstDropped+firstTaken, len(scs))
+		return
+	}
+	// the race has two stable regimes: (almost) always lost, as in the code under review, or never
+	// lost (a blocking or buffered hand-over). Anything at or above a half is the defect.
+	if 2*firstDropped >= firstDropped+firstTaken {
+		h.violate("processor-drops-first-unit-of-a-new-message",
+			fmt.Sprintf("ProcessMessage answered 'dropping shard, processor channel full' to the FIRST unit of a new message key in %d of %d fresh processors (each unit handed over once, as the engine does)", firstDropped, firstDropped+firstTaken),
+			map[string]any{"kind": "processor", "scenario": example})
 	}
 }
 
@@ -1039,34 +1185,114 @@ func permutations(n int) [][]int {
 	return out
 }
 
-// probeProcessor: can the Processor be driven, and which of the repairs does it carry?
-func probeProcessor(h *hctx) (wired, noPoison, localFromPresent bool) {
+// probeProcessor: can the Processor be driven, and which of the repairs does it carry? When the
+// Processor of the tree is not wired (events channel and logger never set) a second child binary is
+// built with a build OVERLAY that applies proposed-fixes/C19-processor-wiring.diff to copies of
+// processor.go / engine.go (nothing in /repo is touched) and the probes run on that.
+func probeProcessor(h *hctx) {
 	if !(h.cfg.ShardingLeafProto == h.cfg.ValidatorLeafProto && h.cfg.NonceSet) {
-		return false, false, false
+		return
 	}
 	mk := func(n, local, pub int, steps []procStepT) *procScenario {
 		return &procScenario{N: n, Local: local, Pub: pub, Msg: "70726f6265", Nonce: "5", Steps: steps, TimeoutMs: 1500}
 	}
-	// wired: the local shard first makes the subprocessor broadcast; an invalid unit makes Run log
-	sc := mk(4, 0, 1, []procStepT{{Unit: 0, Sender: "legit"}, {Unit: 1, Corrupt: "shard-flip", Sender: "legit"}, {Unit: 1, Sender: "legit"}})
-	pr := runProcChild(sc)
-	_, final, notes := collect(pr, len(sc.Steps))
-	wired = !pr.crashed && final != "stuck" && len(notes) == 0
-	if !wired {
-		return
+	wiredProbe := func() bool {
+		// the local shard first makes the subprocessor broadcast; an invalid unit makes Run log
+		sc := mk(4, 0, 1, []procStepT{{Unit: 0, Sender: "legit"}, {Unit: 1, Corrupt: "shard-flip", Sender: "legit"}, {Unit: 1, Sender: "legit"}})
+		pr := runProcChild(sc)
+		_, final, notes := collect(pr, len(sc.Steps))
+		return !pr.crashed && final != "stuck" && final != "" && len(notes) == 0
+	}
+	h.pcfg.ProcWired = wiredProbe()
+	if !h.pcfg.ProcWired {
+		bin, err := buildWiredChild()
+		if err != nil {
+			h.res.Fatalf("wiring overlay: %v", err)
+			return
+		}
+		childBin = bin
+		h.pcfg.Overlay = true
+		h.pcfg.ProcWired = wiredProbe()
+		if !h.pcfg.ProcWired {
+			h.res.Fatalf("the Processor is not drivable even with the wiring overlay")
+			return
+		}
 	}
 	// noPoison: a bad first unit, then the honest local shard: is it broadcast?
-	sc = mk(4, 0, 1, []procStepT{{Unit: 1, Corrupt: "shard-flip", Sender: "legit"}, {Unit: 0, Sender: "legit"}})
-	pr = runProcChild(sc)
+	sc := mk(4, 0, 1, []procStepT{{Unit: 1, Corrupt: "shard-flip", Sender: "legit"}, {Unit: 0, Sender: "legit"}})
+	pr := runProcChild(sc)
 	obs, _, _ := collect(pr, len(sc.Steps))
 	n := 0
 	for _, o := range obs {
 		n += len(o.events)
 	}
-	noPoison = !pr.crashed && n > 0
+	h.pcfg.NoPoison = !pr.crashed && n > 0
 	// localFromPresent: build from a unit that is neither shard 0 nor the local shard
 	sc = mk(4, 1, 0, []procStepT{{Unit: 2, Sender: "legit"}})
 	pr = runProcChild(sc)
-	localFromPresent = !pr.crashed
-	return
+	h.pcfg.LocalFromPresent = !pr.crashed
+	// keyGuard: a unit naming a publisher without embedded key
+	sc = mk(4, 0, 1, []procStepT{{Unit: 0, Corrupt: "publisher-keyless", Sender: "legit"}})
+	sc.Keyless = true
+	pr = runProcChild(sc)
+	h.pcfg.KeyGuard = !pr.crashed
+}
+
+// buildWiredChild builds this harness once more with a `go build -overlay` that replaces
+// processor.go and engine.go by copies with proposed-fixes/C19-processor-wiring.diff applied.
+func buildWiredChild() (string, error) {
+	verif, err := os.Getwd()
+	if err != nil {
+		return "", err
+	}
+	repo := os.Getenv("VERIF_REPO")
+	if repo == "" {
+		repo = "/repo"
+	}
+	tag := fmt.Sprintf("%x", sha1.Sum([]byte(repo)))[:8]
+	dir := verif + "/.build/c19-overlay-" + tag
+	rel := []string{"consensus/propeller/processor.go", "consensus/propeller/engine.go"}
+	if err := os.RemoveAll(dir + "/src"); err != nil {
+		return "", err
+	}
+	replace := map[string]string{}
+	for _, f := range rel {
+		b, err := os.ReadFile(repo + "/" + f)
+		if err != nil {
+			return "", err
+		}
+		dst := dir + "/src/" + f
+		if err := os.MkdirAll(dst[:strings.LastIndex(dst, "/")], 0o755); err != nil {
+			return "", err
+		}
+		if err := os.WriteFile(dst, b, 0o644); err != nil {
+			return "", err
+		}
+		replace[repo+"/"+f] = dst
+	}
+	diff := verif + "/proposed-fixes/C19-processor-wiring.diff"
+	// (outside any repository as far as git is concerned, so the paths of the diff are relative
+	// to the copy)
+	cmd := exec.Command("git", "apply", diff)
+	cmd.Dir = dir + "/src"
+	cmd.Env = append(os.Environ(), "GIT_CEILING_DIRECTORIES="+dir)
+	if out, err := cmd.CombinedOutput(); err != nil {
+		return "", fmt.Errorf("cannot apply %s to a copy of processor.go/engine.go: %v %s", diff, err, clip(string(out)))
+	}
+	ov, _ := json.Marshal(map[string]any{"Replace": replace})
+	if err := os.WriteFile(dir+"/overlay.json", ov, 0o644); err != nil {
+		return "", err
+	}
+	bin := dir + "/vh-c19-wired"
+	args := []string{"build", "-overlay", dir + "/overlay.json"}
+	if repo != "/repo" {
+		args = append(args, "-modfile="+verif+"/.build/go-"+tag+".mod")
+	}
+	args = append(args, "-tags", "verif", "-o", bin, "./cmd/c19")
+	b := exec.Command("go", args...)
+	b.Dir = verif + "/harness"
+	if out, err := b.CombinedOutput(); err != nil {
+		return "", fmt.Errorf("go %s: %v\n%s", strings.Join(args, " "), err, clip(string(out)))
+	}
+	return bin, nil
 }
